@@ -100,6 +100,10 @@ theorem complete_once (fx : Bool) (cap : Nat) (s s' : St) (h : Step fx cap s s')
     by_cases hji : j = i
     · subst hji; rw [hi] at hj; injection hj with hj; subst hj; rw [hd] at hw; simp [isWaiting] at hw
     · simp only [St.setSt]; rw [List.getElem?_modify, hi]; simp [hji]; exact hd
+  | giveUp j d hj hw hctx =>
+    by_cases hji : j = i
+    · subst hji; rw [hi] at hj; injection hj with hj; subst hj; rw [hd] at hw; simp [isWaiting] at hw
+    · simp only [St.setSt]; rw [List.getElem?_modify, hi]; simp [hji]; exact hd
   | sever h => exact ⟨c, hi, hd, rfl⟩
 
 /-- **A successful result is the peer's reply to that very call**: in every reachable
